@@ -130,9 +130,15 @@ Record wst := {
    how a new coordinate variable is named after the dimension of its axis).  C17-fix-2 (metadata of the original
    fields brought into memory) has no counterpart here: it removes a crash
    of the netCDF library, which the model does not represent. *)
-Record variant := { fx_formula : bool; fx_global : bool; fx_ft : bool; fx_dimname : bool }.
-Definition old_code := {| fx_formula := false; fx_global := false; fx_ft := false; fx_dimname := false |}.
-Definition new_code := {| fx_formula := true; fx_global := true; fx_ft := true; fx_dimname := true |}.
+Record variant := { fx_formula : bool; fx_global : bool; fx_ft : bool; fx_dimname : bool;
+                    fx_dryname : bool }.   (* C17-fix2-1: the dry run keeps the file's own dimension of a bare axis *)
+Definition old_code := {| fx_formula := false; fx_global := false; fx_ft := false; fx_dimname := false;
+                          fx_dryname := false |}.
+(* /repo HEAD at the time of the deepening pass (C17-fix-1..4 applied) *)
+Definition head_code := {| fx_formula := true; fx_global := true; fx_ft := true; fx_dimname := true;
+                           fx_dryname := false |}.
+Definition new_code := {| fx_formula := true; fx_global := true; fx_ft := true; fx_dimname := true;
+                          fx_dryname := true |}.
 
 Record mode := { m_dry : bool; m_post : bool; m_var : variant }.
 
@@ -414,6 +420,28 @@ Fixpoint dim_for (i : nat) (dims : list cst) (p : nat) : option (nat * cst) :=
               end
   end.
 
+(* an axis without dimension coordinate: the existing netCDF dimension it
+   is given, if any.  Normally the first registered dimension of the same
+   size that is spanned, at the same position, by a construct equal to one of
+   this axis' constructs, and that no other axis of this field uses (commit
+   30b0fd4).  In the dry run (C17-fix2-1) the axis has been read from the file
+   and keeps the dimension it has there, when that one is registered. *)
+Definition pick_dim (m : mode) (f : field) (i : nat) (ax : axis) (x : fst8) (s : wst) : option string :=
+  let free := fun d => negb (smem d (map snd (x_a2d x))) in
+  match (if m_dry m && fx_dryname (m_var m) then a_ncdim ax else None) with
+  | Some d => if option_eqb Z.eqb (dim_size s d) (Some (a_size ax)) && free d then Some d else None
+  | None =>
+    let sp := spanning f i in
+    match sp with
+    | [] => None
+    | _ => match find (fun b => Z.eqb (snd (fst b)) (a_size ax) && span_match sp (snd b) && free (fst (fst b)))
+                      (w_span s) with
+           | Some b => Some (fst (fst b))
+           | None => None
+           end
+    end
+  end.
+
 Definition write_axis (m : mode) (f : field) (dims : list cst) (i : nat) (ax : axis)
            (xs : fst8 * wst) : fst8 * wst :=
   let '(x, s) := xs in
@@ -429,17 +457,14 @@ Definition write_axis (m : mode) (f : field) (dims : list cst) (i : nat) (ax : a
           x_span := x_span x |}, s1)
   | None =>
     if nmem i (f_daxes f) then
-      let sp := spanning f i in
-      match (if match sp with [] => false | _ => true end then
-               find (fun b => Z.eqb (snd (fst b)) (a_size ax) && span_match sp (snd b)) (w_span s)
-             else None) with
-      | Some b => ({| x_a2d := (i, fst (fst b)) :: x_a2d x; x_dimvar := x_dimvar x;
+      match pick_dim m f i ax x s with
+      | Some d => ({| x_a2d := (i, d) :: x_a2d x; x_dimvar := x_dimvar x;
                       x_coords := x_coords x; x_span := x_span x |}, s)
       | None =>
         let '(nd, s1) := netcdf_name (match a_ncdim ax with Some d => d | None => "dim" end) s in
         let s2 := create_dim m nd (a_size ax) (upd_dimsz (cons (nd, a_size ax)) s1) in
         ({| x_a2d := (i, nd) :: x_a2d x; x_dimvar := x_dimvar x; x_coords := x_coords x;
-            x_span := x_span x ++ [(nd, a_size ax, sp)] |}, s2)
+            x_span := x_span x ++ [(nd, a_size ax, spanning f i)] |}, s2)
       end
     else (x, s)
   end.
